@@ -511,6 +511,19 @@ func errClass(err error) string {
 	return s
 }
 
+// Harness errors of the kind "an honest header was rejected" are postponed to the end of the run: they are raised only
+// if no violation outside KNOWN_FINDINGS.txt was recorded (exit 1 must win over exit 2).
+var (
+	deferredMu sync.Mutex
+	deferred   []string
+)
+
+func deferHarness(format string, a ...any) {
+	deferredMu.Lock()
+	deferred = append(deferred, fmt.Sprintf(format, a...))
+	deferredMu.Unlock()
+}
+
 // loaded remembers which dump a pooled Sim currently holds (by identity of the dump's backing array), so that the
 // many rejected submissions explored from one state do not reload it.
 var loaded sync.Map
@@ -574,6 +587,7 @@ func explore(r *ev.Run, env *hsenv.Env, m *model, sims chan *hsenv.Sim, base pol
 	sims <- sim
 	report := func(s state, path []string) {
 		for _, p := range s.probs {
+			noteViolation(tag + "/" + p.Key)
 			r.Violation(tag+"/"+p.Key, map[string]any{"router": tag, "events": path, "what": p.Detail,
 				"note": "event = <parent label>|k<sealing key>d<difficulty>[L<list: A=k0,k1,k2 B=k3,k1,k2 C=k0..k3 P=k0..k6 Q=k0..k4 R=k6,k2,k4 S=signers in force>][v+N / v-N clique vote][!malformation][?orphan]; " +
 					"trust root G at height " + strconv.FormatUint(rootH, 10) + " lists " + fmt.Sprint(gnode.sp.list) + "; model epoch " + strconv.FormatUint(m.epoch, 10)})
@@ -761,12 +775,20 @@ func explore(r *ev.Run, env *hsenv.Env, m *model, sims chan *hsenv.Sim, base pol
 			tip := cur.nodes[len(cur.nodes)-1]
 			hs := m.honest(tip, -1)
 			if len(hs) == 0 {
-				r.HarnessError("%s/%s: no honest successor at height %d", tag, opt.name, tip.height+1)
+				deferHarness("%s/%s: no honest successor at height %d", tag, opt.name, tip.height+1)
+				break
 			}
 			evn := tip.label + "|" + encodeSpec(hs[0], m.listsAt(tip, tip.height+1)[0])
 			nx, _ := cfg.Step(cur, evn)
 			if len(nx.nodes) != len(cur.nodes)+1 {
-				r.HarnessError("%s/%s: honest backbone header %s rejected", tag, opt.name, evn)
+				// completeness broken: remember it, keep exploring from the last accepted prefix (a mutant that rejects the
+				// honest header usually also stores a dishonest one, and that violation must win over the harness error)
+				deferHarness("%s/%s: honest backbone header %s rejected", tag, opt.name, evn)
+				r.Class(ctag + ":honest-backbone-header-rejected")
+				if i < opt.from { // this prefix is not yet a start state
+					cfg.Init = append(cfg.Init, cur)
+				}
+				break
 			}
 			if len(nx.probs) > 0 {
 				report(nx, []string{"backbone", evn})
